@@ -217,7 +217,7 @@ def run_structured(order_name, policy_spec, scratch, t):
             return later[0] if later else enabled[0]
         raise ValueError(kind)
 
-    ex = procsched.Execution(list(ws), d, ROOT, conf, timeout=300.0)
+    ex = procsched.Execution(list(ws), d, ROOT, conf, timeout=1800.0)
     res = ex.run([], policy)
     t.count("structured_schedules")
     t.count("schedules")
